@@ -322,6 +322,11 @@ func liveChildren() []int {
 	return kids
 }
 
+// wrappedProc is a component in the documented style: a struct that embeds a *scipipe.Process.
+type wrappedProc struct {
+	*sp.Process
+}
+
 func runSpec(path string) {
 	s, err := spec.Load(path)
 	if err != nil {
@@ -364,8 +369,14 @@ func runSpec(path string) {
 		wf.RunToRegex(s.Run.Targets...)
 	case "runtoprocs":
 		ps := []sp.WorkflowProcess{}
-		for _, t := range s.Run.Targets {
-			ps = append(ps, nodes[t].proc)
+		for i, t := range s.Run.Targets {
+			// every second target is passed as a re-usable-component wrapper (a struct embedding *Process), the
+			// documented way to build components
+			if pr, ok := nodes[t].proc.(*sp.Process); ok && (len(t)+i)%2 == 0 {
+				ps = append(ps, &wrappedProc{pr})
+			} else {
+				ps = append(ps, nodes[t].proc)
+			}
 		}
 		wf.RunToProcs(ps...)
 	}
